@@ -1,6 +1,7 @@
 package main
 
 import (
+	"bytes"
 	"encoding/json"
 	"fmt"
 	"reflect"
@@ -164,6 +165,9 @@ func (*c07Prop) Gen(r *Rand, pl *Plan) Case {
 		c.G.translit('b', to)
 		c.Input = strings.Replace(c.Input, "b", to, -1)
 	}
+	if r.Chance(1, 8) {
+		c.Input = stretchWs(r, c.Input)
+	}
 	consumers := r.Range(2, 4)
 	nsteps := r.Range(2, 10)
 	memoNodes := []int{}
@@ -273,6 +277,8 @@ type c07Violation struct {
 }
 
 type monitor struct {
+	text []byte      // the parsed file's (normalised) content and the global position of its first byte
+	base parsley.Pos
 	nodes     map[interface{}]*shallow
 	nodeOrder []parsley.Node
 	lists     map[listKey][]kidKey
@@ -404,6 +410,21 @@ func sameKids(a, b []kidKey) (int, bool) {
 	return 0, true
 }
 
+// maximalWsMove: to is the end of the run of whitespace bytes that starts at from.
+func (m *monitor) maximalWsMove(from, to parsley.Pos) bool {
+	isWs := func(b byte) bool { return b == ' ' || b == '\t' || b == '\n' || b == '\f' }
+	o, c := int(from-m.base), int(to-m.base)
+	if o < 0 || c <= o || c > len(m.text) {
+		return false
+	}
+	for _, b := range m.text[o:c] {
+		if !isWs(b) {
+			return false
+		}
+	}
+	return c == len(m.text) || !isWs(m.text[c])
+}
+
 // checkAll re-reads every tracked object. The first change is classified; a change that
 // carries the signature of the open RightTrim finding is counted, re-baselined (only that
 // field) and checking continues.
@@ -448,6 +469,13 @@ func (m *monitor) checkAll() {
 				// sequence parser handed out the same object twice
 				m.viol = &c07Violation{class: "frozen:readerPos", culprit: cu.label, field: field,
 					detail: fmt.Sprintf("readerPos of a %s node returned earlier (token %q, %d..%d) changed to %d while parser %q was running; the node is held by two consumers because the un-memoised parser %q handed out the same node object from two separate calls", old.typ, old.token, old.pos, old.rpos, cur.rpos, cu.label, by)}
+				return
+			}
+			if m.text != nil && !m.maximalWsMove(old.rpos, cur.rpos) {
+				// not what the pinned RightTrim does: it moves a reader position to the END of
+				// the whitespace run that follows it (SkipWhitespaces, in every mode), once
+				m.viol = &c07Violation{class: "frozen:readerPos", culprit: cu.label, field: field,
+					detail: fmt.Sprintf("readerPos of a %s node returned earlier (token %q, %d..%d) changed to %d while parser %q was running, and %d is not the end of the whitespace run following %d (the open RightTrim finding moves a position to the end of that run, and a second trim then changes nothing)", old.typ, old.token, old.pos, old.rpos, cur.rpos, cu.label, cur.rpos, old.rpos)}
 				return
 			}
 			m.known++
@@ -707,6 +735,7 @@ func (*c07Prop) Run(cc Case) (v Verdict) {
 	b := build(c.G, &buildOpts{Memo: true, Wrap: m.wrap, LibInterp: true})
 	an := c.G.analyze()
 	ctx := newCtx(c.Input, c.Prefix)
+	m.text, m.base = bytes.Replace([]byte(c.Input), []byte("\r\n"), []byte("\n"), -1), ctx.Reader().Pos(0)
 	first := map[[2]int]string{}
 	consumers := map[int]bool{}
 	for i := range c.Steps {
